@@ -15,6 +15,7 @@ import (
 // Op is one operation in spec form (see GQLShape.tla: record [kind, fed, sel]).
 type Op struct {
 	Kind string `json:"kind"` // query | mutation
+	Dv   string `json:"dv"`   // data variant of the service this operation is asked against ("" = stock MockService)
 	Fed  []Fed  `json:"fed"`
 	Sel  []Sel  `json:"sel"`
 }
